@@ -37,9 +37,10 @@ func init() {
 		Level: "model_checking",
 		Rule: "product space: context (install on empty ledger | install with another release's 2-revision ledger | install --replace after uninstall --keep-history on 1- and 2-revision ledgers | " +
 			"upgrade adding the slots on 1- and 2-revision ledgers, keeping or dropping the base resource | rollback re-creating the slots; thorough adds: upgrade changing the base, ledgers with a failed last revision, charts without hook) " +
-			"x take-ownership on/off x chart over a subset of the slots ConfigMap a, Service s, Widget w (unstructured) (+ one pre-* hook) " +
-			"x every placement vector in {absent,foreign,other-release,other-ns,label-only,annos-only,owned}^3 (thorough: + label-wrong-value, no-namespace-annotation = 9^3); slots outside the chart are bystanders. " +
-			"quick: memory backend x subsets of >=2 slots, Secret backend x the 3-slot chart; thorough: memory x all 7 subsets x 9^3, Secret backend x subsets of >=2 slots x 7^3. " +
+			"x take-ownership on/off x chart over a subset of the slots ConfigMap a, Service s, Widget w (unstructured), ClusterRole cr (cluster-scoped) (+ one pre-* hook) " +
+			"x every placement vector in {absent,foreign,other-release,other-ns,label-only,annos-only,owned}^k over the placed slots (thorough: + label-wrong-value, no-namespace-annotation); placed slots outside the chart are bystanders. " +
+			"quick: memory backend x subsets of >=2 of a,s,w, Secret backend x the chart a+s+w; cluster-scoped family: memory x charts {cr, a+cr} x 7^2 placements of (a,cr), Secret backend x chart {cr} x 7; " +
+			"thorough: memory x all 7 subsets of a,s,w x 9^3, Secret backend x subsets of >=2 x 7^3, memory x {cr, a+cr} x 9^2 on all contexts, memory x chart a+s+w+cr x 7^4, Secret backend x {cr, a+cr} x 7^2. " +
 			"From every state reached by the operation under test the follow-ups uninstall, rollback, upgrade-updating-the-slots and upgrade-removing-the-slots are executed; " +
 			"every transition is the real action on a clone of the state; states = canonical worlds. distinct = (backend, context, chart, take-ownership, placement vector, step); " +
 			"non-trivial = at least one slot occupied (counter cases_with_occupied_chart_slot)",
@@ -57,6 +58,7 @@ func init() {
 			"adopted-owned:install", "adopted-owned:upgrade", "takeover:install", "takeover:replace", "takeover:upgrade", "created-fresh",
 			"delete-checked", "hook-delete-checked", "bystander-compared", "uninstall-ok", "rollback-ok", "upgrade-removes-slots", "upgrade-updates-slots",
 			"uninstall-after-refusal", "rollback-recreates",
+			"refused-cluster-scoped-other-ns:install", "refused-cluster-scoped-other-ns:replace", "refused-cluster-scoped-other-ns:upgrade", "takeover-cluster-scoped",
 		},
 	})
 }
@@ -65,7 +67,11 @@ func init() {
 
 type slot struct{ Kind, Name string }
 
-var slots = []slot{{"ConfigMap", "a"}, {"Service", "s"}, {"Widget", "w"}}
+// a, s, w are namespaced; cr is cluster-scoped (its release-namespace annotation is the only
+// place where the owning release's namespace is recorded).
+var slots = []slot{{"ConfigMap", "a"}, {"Service", "s"}, {"Widget", "w"}, {"ClusterRole", "cr"}}
+
+type placement [4]int
 
 var placeNames = []string{"absent", "foreign", "other-release", "other-ns", "label-only", "annos-only", "owned", "label-wrong-value", "no-ns-anno"}
 
@@ -78,11 +84,23 @@ func apiVersionOf(kind string) string {
 	if kind == "Widget" || kind == "Gadget" {
 		return "example.verif/v1"
 	}
+	if kind == "ClusterRole" {
+		return "rbac.authorization.k8s.io/v1"
+	}
 	return "v1"
 }
 
 func slotPath(s slot) string {
-	return hx.Doc{APIVersion: apiVersionOf(s.Kind), Kind: s.Kind, Name: s.Name}.Path()
+	return docPath(hx.Doc{APIVersion: apiVersionOf(s.Kind), Kind: s.Kind, Name: s.Name})
+}
+
+// docPath is hx.Doc.Path with the cluster-scoped kinds of this check (Doc.Path only knows Namespace and CRD as such).
+func docPath(d hx.Doc) string {
+	if d.Kind == "ClusterRole" {
+		i := strings.Index(d.APIVersion, "/")
+		return sim.ObjPath(d.APIVersion[:i], d.APIVersion[i+1:], "", "clusterroles", d.Name)
+	}
+	return d.Path()
 }
 
 const (
@@ -95,6 +113,9 @@ const (
 // content differs from every chart variant.
 func preObject(s slot, kind int) map[string]any {
 	md := map[string]any{"name": s.Name, "namespace": hx.Namespace}
+	if s.Kind == "ClusterRole" {
+		delete(md, "namespace")
+	}
 	var lb, an map[string]any
 	switch kind {
 	case 1:
@@ -129,6 +150,8 @@ func preObject(s slot, kind int) map[string]any {
 		o["spec"] = map[string]any{"ports": []any{map[string]any{"name": "q", "port": 9, "protocol": "TCP"}}, "selector": map[string]any{"app": "pre"}}
 	case "Widget":
 		o["spec"] = map[string]any{"size": 7, "foreignField": "f"}
+	case "ClusterRole":
+		o["rules"] = []any{map[string]any{"apiGroups": []any{""}, "resources": []any{"secrets"}, "verbs": []any{"watch"}}}
 	}
 	return o
 }
@@ -299,17 +322,22 @@ func contexts(thorough bool) []ctxDef {
 	return out
 }
 
-// placements enumerates kinds^3 ordered by the number of occupied slots (simplest first).
-func placements(kinds int) [][3]int {
-	var all [][3]int
-	for a := 0; a < kinds; a++ {
-		for b := 0; b < kinds; b++ {
-			for w := 0; w < kinds; w++ {
-				all = append(all, [3]int{a, b, w})
+// placements enumerates kinds^len(vary) vectors over the varied slots (the others stay absent),
+// ordered by the number of occupied slots (simplest first).
+func placements(kinds int, vary []int) []placement {
+	all := []placement{{}}
+	for _, slotIdx := range vary {
+		var next []placement
+		for _, p := range all {
+			for k := 0; k < kinds; k++ {
+				q := p
+				q[slotIdx] = k
+				next = append(next, q)
 			}
 		}
+		all = next
 	}
-	occ := func(p [3]int) int {
+	occ := func(p placement) int {
 		n := 0
 		for _, k := range p {
 			if k != plAbsent {
@@ -322,7 +350,7 @@ func placements(kinds int) [][3]int {
 	return all
 }
 
-func placementString(p [3]int) string {
+func placementString(p placement) string {
 	var s []string
 	for i, k := range p {
 		s = append(s, slots[i].Name+"="+placeNames[k])
@@ -396,7 +424,7 @@ func manifestDocs(manifest string) map[string]hx.Doc {
 	out := map[string]hx.Doc{}
 	docs, _ := hx.ParseManifest(manifest)
 	for _, d := range docs {
-		out[d.Path()] = d
+		out[docPath(d)] = d
 	}
 	return out
 }
@@ -699,29 +727,40 @@ func normalisedObj(raw json.RawMessage) []byte { return []byte(raw) }
 
 // minimiseA re-runs an (a)-violation with a single conflicting pre-existing object.
 func minimiseA(t *opspace.Transition, p problem) (*opspace.Transition, *problem) {
-	for _, keep := range p.Conflicts {
-		drop := map[string]bool{}
-		for _, q := range p.Conflicts {
-			if q != keep {
-				drop[q] = true
-			}
+	nPuts := 0
+	for _, s := range t.Path {
+		if s.Env != nil && s.Env.Kind == "put" {
+			nPuts++
 		}
-		var np []opspace.Step
-		for _, s := range t.Path {
-			if s.Env != nil && s.Env.Kind == "put" && drop[s.Env.Path] {
+	}
+	if nPuts <= 1 {
+		return nil, nil
+	}
+	// first try to keep one conflicting object and nothing else (no other conflicts, no owned objects,
+	// no bystanders); then one conflicting object plus everything that is not a conflict
+	for _, onlyConflicts := range []bool{false, true} {
+		for _, keep := range p.Conflicts {
+			isConflict := map[string]bool{}
+			for _, q := range p.Conflicts {
+				isConflict[q] = true
+			}
+			var np []opspace.Step
+			for _, s := range t.Path {
+				if s.Env != nil && s.Env.Kind == "put" && s.Env.Path != keep && (isConflict[s.Env.Path] || !onlyConflicts) {
+					continue
+				}
+				np = append(np, s)
+			}
+			if len(np) == len(t.Path) {
 				continue
 			}
-			np = append(np, s)
-		}
-		if len(np) == len(t.Path) {
-			continue
-		}
-		ts := runPath(t.Driver, np)
-		last := ts[len(ts)-1]
-		for _, q := range eval(last).Problems {
-			if q.Clause == "A" && len(q.Conflicts) == 1 {
-				q := q
-				return last, &q
+			ts := runPath(t.Driver, np)
+			last := ts[len(ts)-1]
+			for _, q := range eval(last).Problems {
+				if q.Clause == "A" && len(q.Conflicts) == 1 && (len(p.Conflicts) > 1 || q.Key == p.Key) {
+					q := q
+					return last, &q
+				}
 			}
 		}
 	}
@@ -731,7 +770,7 @@ func minimiseA(t *opspace.Transition, p problem) (*opspace.Transition, *problem)
 func report(c *core.Ctx, t *opspace.Transition, v verdict, minimise bool) {
 	for _, p := range v.Problems {
 		rt := t
-		if minimise && p.Clause == "A" && len(p.Conflicts) > 1 {
+		if minimise && p.Clause == "A" {
 			if mt, mp := minimiseA(t, p); mp != nil {
 				rt, p = mt, *mp
 			}
@@ -760,21 +799,31 @@ type block struct {
 	ctxs   []ctxDef
 	masks  []int
 	kinds  int
+	vary   []int // slot indexes whose placement is enumerated
 }
 
 func blocksOf(thorough bool) []block {
+	nsSlots := []int{0, 1, 2} // a, s, w
+	const cr = 8              // mask bit of the cluster-scoped slot
 	if !thorough {
 		return []block{
-			{driver: "memory", ctxs: contexts(false), masks: []int{3, 5, 6, 7}, kinds: 7},
-			{driver: "secrets", ctxs: contexts(false), masks: []int{7}, kinds: 7},
+			{driver: "memory", ctxs: contexts(false), masks: []int{3, 5, 6, 7}, kinds: 7, vary: nsSlots},
+			{driver: "secrets", ctxs: contexts(false), masks: []int{7}, kinds: 7, vary: nsSlots},
+			// cluster-scoped family: ClusterRole cr alone and together with ConfigMap a
+			{driver: "memory", ctxs: contexts(false), masks: []int{cr, cr | 1}, kinds: 7, vary: []int{0, 3}},
+			{driver: "secrets", ctxs: contexts(false), masks: []int{cr}, kinds: 7, vary: []int{3}},
 		}
 	}
 	// thorough: the memory backend with every chart subset, 9 placement kinds, hook and no-hook charts and the
 	// extra ledgers; the Secret backend (records live in the same cluster, so "no mutating request" also covers
-	// record writes over HTTP) with the quick alphabet
+	// record writes over HTTP) with the quick alphabet; the cluster-scoped family with 9 kinds on all contexts,
+	// and the 4-slot chart with all 7^4 placements
 	return []block{
-		{driver: "memory", ctxs: contexts(true), masks: []int{1, 2, 4, 3, 5, 6, 7}, kinds: 9},
-		{driver: "secrets", ctxs: contexts(false), masks: []int{3, 5, 6, 7}, kinds: 7},
+		{driver: "memory", ctxs: contexts(true), masks: []int{1, 2, 4, 3, 5, 6, 7}, kinds: 9, vary: nsSlots},
+		{driver: "secrets", ctxs: contexts(false), masks: []int{3, 5, 6, 7}, kinds: 7, vary: nsSlots},
+		{driver: "memory", ctxs: contexts(true), masks: []int{cr, cr | 1}, kinds: 9, vary: []int{0, 3}},
+		{driver: "memory", ctxs: contexts(false), masks: []int{15}, kinds: 7, vary: []int{0, 1, 2, 3}},
+		{driver: "secrets", ctxs: contexts(false), masks: []int{cr, cr | 1}, kinds: 7, vary: []int{0, 3}},
 	}
 }
 
@@ -852,16 +901,23 @@ func (x *explorer) prefix(drv string, cx ctxDef, mask int) *prefixState {
 
 func run(c *core.Ctx) {
 	blocks := blocksOf(c.Thorough())
-	c.Bound("slots", "ConfigMap a, Service s, Widget w")
+	c.Bound("slots", "ConfigMap a, Service s, Widget w, ClusterRole cr (cluster-scoped)")
 	c.Bound("ledger_depth_before_operation", "0..2 revisions")
 	c.Bound("followup_depth", "1 operation after the operation under test")
 	for i, b := range blocks {
-		c.Bound(fmt.Sprintf("block%d", i+1), fmt.Sprintf("driver=%s contexts(incl. take-ownership on/off)=%d chart_slot_subsets=%d placement_kinds=%d placement_vectors=%d",
-			b.driver, len(b.ctxs), len(b.masks), b.kinds, b.kinds*b.kinds*b.kinds))
+		var charts, varied []string
+		for _, m := range b.masks {
+			charts = append(charts, maskName(m))
+		}
+		for _, v := range b.vary {
+			varied = append(varied, slots[v].Name)
+		}
+		c.Bound(fmt.Sprintf("block%d", i+1), fmt.Sprintf("driver=%s contexts(incl. take-ownership on/off)=%d charts=%s placement_kinds=%d placed_slots=%s placement_vectors=%d",
+			b.driver, len(b.ctxs), strings.Join(charts, "|"), b.kinds, strings.Join(varied, "+"), len(placements(b.kinds, b.vary))))
 	}
 	x := &explorer{c: c, prefixes: map[string]*prefixState{}}
 	for _, b := range blocks {
-		pls := placements(b.kinds)
+		pls := placements(b.kinds, b.vary)
 		for _, cx := range b.ctxs {
 			if c.Only != "" && !strings.Contains(b.driver+"|"+cx.Name, c.Only) {
 				continue
@@ -878,7 +934,7 @@ func run(c *core.Ctx) {
 	}
 }
 
-func (x *explorer) scenario(drv string, cx ctxDef, mask int, pl [3]int) {
+func (x *explorer) scenario(drv string, cx ctxDef, mask int, pl placement) {
 	c := x.c
 	ps := x.prefix(drv, cx, mask)
 	if !ps.ok {
@@ -916,6 +972,10 @@ func (x *explorer) scenario(drv string, cx ctxDef, mask int, pl [3]int) {
 	case v.ExpectRefusal && v.Refused:
 		out = "refused"
 		c.Floor("refused:" + cx.Kind)
+		if mask&8 != 0 && pl[3] == 3 && v.Conflicts == 1 {
+			// the only conflict is the cluster-scoped object annotated r/other-ns
+			c.Floor("refused-cluster-scoped-other-ns:" + cx.Kind)
+		}
 		if cx.Ledger > 0 {
 			c.Floor("refused-on-populated-ledger")
 		}
@@ -931,6 +991,9 @@ func (x *explorer) scenario(drv string, cx ctxDef, mask int, pl [3]int) {
 	case v.Conflicts > 0:
 		out = "takeover"
 		c.Floor("takeover:" + cx.Kind)
+		if mask&8 != 0 && pl[3] != plAbsent && pl[3] != plOwned {
+			c.Floor("takeover-cluster-scoped")
+		}
 	case v.OwnedOccupied > 0:
 		out = "adopted-owned"
 		c.Floor("adopted-owned:" + cx.Kind)
